@@ -1,5 +1,5 @@
 (* Props/C04.v — property theorems only. *)
-From GE Require Import Lib.Bytes Lib.Sha256 Model.Tx Model.TxHash Proofs.TxCodec Proofs.TxId.
+From GE Require Import Lib.Bytes Lib.Sha256 Model.Tx Model.TxHash Proofs.TxCodec Proofs.TxId Proofs.TxIdFields.
 Open Scope N_scope.
 
 (* the id ignores every witness field: no hypothesis *)
@@ -32,3 +32,76 @@ Print Assumptions C04_wtxid_digest_sensitive.
 Theorem C04_wtxid_eq_txid_without_witness : forall t, has_witness t = false -> wtxid t = txid t.
 Proof. exact wtxid_eq_txid_without_witness. Qed.
 Print Assumptions C04_wtxid_eq_txid_without_witness.
+
+(* ---- field by field, on positions of the input and output lists (Proofs/TxIdFields.v) ---- *)
+
+(* the witness-free part keeps exactly outpoint hash, index, sequence, script, peg-in flag and issuance of an input,
+   and asset, value, script and nonce of an output *)
+Theorem C04_base_input_fields : forall i i', strip_in i = strip_in i' <->
+  in_hash i = in_hash i' /\ in_index i = in_index i' /\ in_seq i = in_seq i' /\ in_script i = in_script i' /\
+  in_pegin i = in_pegin i' /\ in_iss i = in_iss i'.
+Proof. exact strip_in_eq_iff. Qed.
+Print Assumptions C04_base_input_fields.
+
+Theorem C04_base_output_fields : forall o o', strip_out o = strip_out o' <->
+  o_asset o = o_asset o' /\ o_value o = o_value o' /\ o_script o = o_script o' /\ o_nonce o = o_nonce o'.
+Proof. exact strip_out_eq_iff. Qed.
+Print Assumptions C04_base_output_fields.
+
+(* equality of the hashed serialization is exactly equality of the witness-free parts *)
+Theorem C04_txid_iff : forall t t', wf_tx t = true -> wf_tx t' = true ->
+  (ser_txid t = ser_txid t' <-> same_base t t').
+Proof. exact txid_iff. Qed.
+Print Assumptions C04_txid_iff.
+
+(* rewriting script witness, peg-in witness and both issuance range proofs of the input at any position (and
+   the flag) leaves the id unchanged; likewise range and surjection proof of the output at any position *)
+Theorem C04_txid_ignores_input_witness : forall t n w pw irp inrp flag,
+  txid (mk_tx (t_version t) flag (t_locktime t) (upd_nth (t_ins t) n (set_in_witness_fields w pw irp inrp)) (t_outs t))
+  = txid t.
+Proof. exact txid_ignores_input_witness. Qed.
+Print Assumptions C04_txid_ignores_input_witness.
+
+Theorem C04_txid_ignores_output_proofs : forall t n rp sp flag,
+  txid (mk_tx (t_version t) flag (t_locktime t) (t_ins t) (upd_nth (t_outs t) n (set_out_proofs rp sp)))
+  = txid t.
+Proof. exact txid_ignores_output_proofs. Qed.
+Print Assumptions C04_txid_ignores_output_proofs.
+
+Theorem C04_txid_covers_version_locktime : forall t t', wf_tx t = true -> wf_tx t' = true ->
+  (t_version t <> t_version t' \/ t_locktime t <> t_locktime t') -> ser_txid t <> ser_txid t'.
+Proof. exact txid_covers_version_locktime. Qed.
+Print Assumptions C04_txid_covers_version_locktime.
+
+Theorem C04_txid_covers_counts : forall t t', wf_tx t = true -> wf_tx t' = true ->
+  (length (t_ins t) <> length (t_ins t') \/ length (t_outs t) <> length (t_outs t')) -> ser_txid t <> ser_txid t'.
+Proof. exact txid_covers_counts. Qed.
+Print Assumptions C04_txid_covers_counts.
+
+Theorem C04_txid_covers_input_field : forall t t' n i i', wf_tx t = true -> wf_tx t' = true ->
+  nth_error (t_ins t) n = Some i -> nth_error (t_ins t') n = Some i' ->
+  (in_hash i <> in_hash i' \/ in_index i <> in_index i' \/ in_seq i <> in_seq i' \/ in_script i <> in_script i' \/
+   in_pegin i <> in_pegin i' \/ in_iss i <> in_iss i') ->
+  ser_txid t <> ser_txid t'.
+Proof. exact txid_covers_input_field. Qed.
+Print Assumptions C04_txid_covers_input_field.
+
+Theorem C04_txid_covers_output_field : forall t t' n o o', wf_tx t = true -> wf_tx t' = true ->
+  nth_error (t_outs t) n = Some o -> nth_error (t_outs t') n = Some o' ->
+  (o_asset o <> o_asset o' \/ o_value o <> o_value o' \/ o_script o <> o_script o' \/ o_nonce o <> o_nonce o') ->
+  ser_txid t <> ser_txid t'.
+Proof. exact txid_covers_output_field. Qed.
+Print Assumptions C04_txid_covers_output_field.
+
+Theorem C04_wtxid_covers_witness_field : forall t t' n i i', wf_tx t = true -> wf_tx t' = true ->
+  nth_error (t_ins t) n = Some i -> nth_error (t_ins t') n = Some i' ->
+  (in_witness i <> in_witness i' \/ in_pegwit i <> in_pegwit i' \/ in_irp i <> in_irp i' \/ in_inrp i <> in_inrp i') ->
+  ser_wtxid t <> ser_wtxid t'.
+Proof. exact wtxid_covers_witness_field. Qed.
+Print Assumptions C04_wtxid_covers_witness_field.
+
+Theorem C04_wtxid_covers_output_proofs : forall t t' n o o', wf_tx t = true -> wf_tx t' = true ->
+  nth_error (t_outs t) n = Some o -> nth_error (t_outs t') n = Some o' ->
+  (o_rp o <> o_rp o' \/ o_sp o <> o_sp o') -> ser_wtxid t <> ser_wtxid t'.
+Proof. exact wtxid_covers_output_proofs. Qed.
+Print Assumptions C04_wtxid_covers_output_proofs.
